@@ -10,6 +10,8 @@
 import TdVerif.Lemmas.C16Stack
 import TdVerif.Lemmas.C16Resolve
 import TdVerif.Lemmas.C16Tolist
+import TdVerif.Lemmas.C16AssignMain
+import TdVerif.Lemmas.C16ShapeOps
 
 namespace TdVerif.Props.C16
 open TdVerif.C16 TdVerif.C16.NT
@@ -114,6 +116,64 @@ theorem tolist_row_major (dflt : O) (r : NT O) (hw : wf r = true) :
     tolist r = nestOf (getAt r) dflt (shape r) [] :=
   tolistN_spec dflt (shape r).length r hw rfl
 
+
+/-! ### indexed assignment -/
+
+/-- `setAt_commutes` (`_set_at_str`, non-tensor branch, across the shared→stack promotion): for a well-formed entry
+without empty batch dims, a valid write index (ints, slices, at most one duplicate-free index list; no `None`) and a
+well-formed value of the indexed shape — whatever representations entry and value have — the written entry keeps
+its batch shape, stays well formed, holds at every position the index names the corresponding object of the value,
+and holds everywhere else what it held before.  Both code paths are covered: "nothing to do" when the indexed part
+already equals the value, promotion (`maybe_to_stack`) + lazy-stack `__setitem__` otherwise. -/
+theorem setAt_commutes [DecidableEq O] (r v r' : NT O) (rix : List RIx) (hw : wf r = true) (hp : posShape (shape r))
+    (hv : validIx rix (shape r) = true) (hwr : WriteIx rix) (hwv : wf v = true) (hsv : shape v = outShape rix)
+    (h : setAt r rix v = .ok r') :
+    shape r' = shape r ∧ wf r' = true
+    ∧ (∀ c' c, srcCoord rix c' = some c → getAt r' c = getAt v c')
+    ∧ (∀ c, (∀ c', srcCoord rix c' ≠ some c) → getAt r' c = getAt r c) :=
+  setAt_ok r v r' rix hw hp hv hwr hwv hsv h
+
+/-- writing never invents an object: every object of the written entry comes from the old entry or from the value -/
+theorem setAt_no_invention [DecidableEq O] (r v r' : NT O) (rix : List RIx) (hw : wf r = true) (hp : posShape (shape r))
+    (hv : validIx rix (shape r) = true) (hwr : WriteIx rix) (hwv : wf v = true) (hsv : shape v = outShape rix)
+    (h : setAt r rix v = .ok r') (c : List Nat) (o : O) (ho : getAt r' c = some o) :
+    (∃ c', getAt v c' = some o) ∨ getAt r c = some o := by
+  obtain ⟨_, _, hwri, hfr⟩ := setAt_ok r v r' rix hw hp hv hwr hwv hsv h
+  by_cases hex : ∃ c', srcCoord rix c' = some c
+  · obtain ⟨c', hc'⟩ := hex
+    exact Or.inl ⟨c', by rw [← hwri c' c hc']; exact ho⟩
+  · refine Or.inr ?_
+    rw [← hfr c (fun c' hc' => hex ⟨c', hc'⟩)]
+    exact ho
+
+/-- the whole-entry assignment `td[()] = value` (and `td[...] = value` on an empty batch): the entry becomes the value -/
+theorem setitem_whole [DecidableEq O] (r v : NT O) (hs : shape v = shape r) :
+    ∃ r', setitem r [] v = .ok r' ∧ shape r' = shape r ∧ ∀ c, getAt r' c = getAt v c ∨ (sameContent r v = true ∧ r' = r) := by
+  simp only [setitem, List.all_nil, List.isEmpty_nil, Bool.true_or, Bool.and_self, ↓reduceIte]
+  by_cases h : sameContent r v = true
+  · exact ⟨r, by simp [h], rfl, fun c => Or.inr ⟨h, rfl⟩⟩
+  · exact ⟨v, by simp [h], hs, fun c => Or.inl rfl⟩
+
+
+/-! ### shape operations on the representation -/
+
+/-- `shapeop_commutes` (unsqueeze): a new dim of size 1 at `dim`; position 0 of it shows the old entry. The lazy stack
+either shifts its stack dim (new dim at or before it) or hands the new dim to its members (after it). -/
+theorem unsqueeze_commutes (r : NT O) (dim : Nat) (hw : wf r = true) (hd : dim ≤ (shape r).length) :
+    wf (unsqueeze r dim) = true ∧ shape (unsqueeze r dim) = (shape r).insertIdx dim 1
+    ∧ ∀ c, getAt (unsqueeze r dim) c = match c[dim]? with
+        | some 0 => getAt r (c.eraseIdx dim)
+        | _ => none :=
+  unsqueeze_spec r dim hw hd
+
+/-- `shapeop_commutes` (squeeze of a size-1 dim): the dim disappears, every object stays at its remaining coordinate;
+squeezing the stack dim of a one-member stack returns that member. -/
+theorem squeeze_commutes (r : NT O) (dim : Nat) (hw : wf r = true) (hd : dim < (shape r).length)
+    (h1 : (shape r).getD dim 0 = 1) :
+    wf (squeeze r dim) = true ∧ shape (squeeze r dim) = (shape r).eraseIdx dim
+    ∧ ∀ c, c.length + 1 = (shape r).length → getAt (squeeze r dim) c = getAt r (c.insertIdx dim 0) :=
+  squeeze_spec r dim hw hd h1
+
 -- non-vacuity: a stack of a shared row and a promoted row, indexed by `[:, 1]`, `[None]`, `[[1,0]]`
 example : wf (.stack [.shared "y" [3], .stack [.shared "x" [], .shared "x" [], .shared "z" []] 0] 0 : NT String) = true := by
   decide
@@ -126,5 +186,19 @@ example : getitem (.stack [.shared "y" [3], .shared "x" [3]] 0 : NT String) [.li
 example : stackNT true [.shared "x" [3], .shared "x" [3]] 0 = (.shared "x" [2, 3] : NT String) := by rfl
 example : stackNT true [.shared "x" [3], .shared "z" [3]] 1 = (.stack [.shared "x" [3], .shared "z" [3]] 1 : NT String) := by
   rfl
+-- a write through a shared value: promotion, then exactly position 0 of dim 0 changes
+example : setitem (.shared "x" [2] : NT String) [.int 0] (.shared "y" []) = .ok (.stack [.shared "y" [], .shared "x" []] 0) := by
+  rfl
+example : WriteIx [.fixed 0, .range 0 1 3] ∧ WriteIx [.pick [1, 0]] := by
+  refine ⟨⟨?_, by simp⟩, ⟨?_, by simp⟩⟩
+  · intro x hx
+    simp only [List.mem_cons, List.not_mem_nil, or_false] at hx
+    rcases hx with rfl | rfl
+    · simp [itemPositions]
+    · decide
+  · intro x hx
+    simp only [List.mem_cons, List.not_mem_nil, or_false] at hx
+    subst hx
+    decide
 
 end TdVerif.Props.C16
